@@ -289,12 +289,20 @@ func (c *WCall) finish(e *Env) {
 
 //go:norace
 func (h *WHist) closeBegin(e *Env) {
+	if h.CloseCalled {
+		e.Sim.NextEv()
+		return
+	}
 	h.CloseCalled = true
 	h.CloseInv, h.CloseInvAt = e.Sim.NextEv(), e.Sim.Now()
 }
 
 //go:norace
-func (h *WHist) closeEnd(e *Env) { h.CloseRet = e.Sim.NextEv() }
+func (h *WHist) closeEnd(e *Env) {
+	if r := e.Sim.NextEv(); h.CloseRet == 0 {
+		h.CloseRet = r // the first Close call that returned
+	}
+}
 
 //go:norace
 func decr(p *int) int { *p--; return *p }
@@ -340,7 +348,15 @@ func (e *Env) RunWriters(cfg WCfg) *WHist {
 	for w := 0; w < cfg.Writers; w++ {
 		plans[w] = e.drawCalls(&cfg, cfg.PerWriter, w, 0, &h.Calls)
 	}
-	post := e.drawCalls(&cfg, cfg.PostClose, 100, 1, &h.Calls)
+	// every closer issues its own writes after its own Close call has returned
+	nClosers := cfg.Closers
+	if nClosers < 1 {
+		nClosers = 1
+	}
+	posts := make([][]*WCall, nClosers)
+	for i := range posts {
+		posts[i] = e.drawCalls(&cfg, cfg.PostClose, 100+i, 1, &h.Calls)
+	}
 	if cfg.CloseMode == 2 {
 		for _, p := range plans {
 			for _, c := range p {
@@ -354,7 +370,7 @@ func (e *Env) RunWriters(cfg WCfg) *WHist {
 		e.Describe("%s", c.String())
 	}
 
-	doClose := func() {
+	doClose := func(who int) {
 		h.closeBegin(e)
 		switch cfg.CloseHow {
 		case 1:
@@ -365,7 +381,7 @@ func (e *Env) RunWriters(cfg WCfg) *WHist {
 			rig.Ch.Close(cfg.CloseErr)
 		}
 		h.closeEnd(e)
-		for _, c := range post {
+		for _, c := range posts[who] {
 			c := c
 			e.Step()
 			h.invoke(c)
@@ -383,14 +399,16 @@ func (e *Env) RunWriters(cfg WCfg) *WHist {
 				}
 				if decr(&remaining) == 0 && cfg.CloseMode == 1 {
 					for i := 0; i < cfg.Closers; i++ {
-						e.Go(fmt.Sprintf("closer%d", i), doClose)
+						i := i
+						e.Go(fmt.Sprintf("closer%d", i), func() { doClose(i) })
 					}
 				}
 			})
 		}
 		if cfg.CloseMode == 2 || (cfg.CloseMode == 1 && cfg.Writers == 0) {
 			for i := 0; i < cfg.Closers; i++ {
-				e.Go(fmt.Sprintf("closer%d", i), doClose)
+				i := i
+				e.Go(fmt.Sprintf("closer%d", i), func() { doClose(i) })
 			}
 		}
 		for s := 0; s < cfg.Scribblers; s++ {
